@@ -29,6 +29,7 @@ type frame struct {
 	panicking *GoPanic
 	recovered bool
 	phiOverride map[*ssa.Phi]Value
+	visited     map[*ssa.BasicBlock]bool
 }
 
 // Interp holds per-program state; per-path state is reset by ResetPath.
@@ -365,6 +366,9 @@ func (fr *frame) runUntil(stop *ssa.BasicBlock) bool {
 			return false
 		}
 		b := fr.block
+		if fr.visited != nil {
+			fr.visited[b] = true
+		}
 		jumped := false
 		for _, instr := range b.Instrs {
 			in.steps++
@@ -607,7 +611,16 @@ func (fr *frame) visit(instr ssa.Instruction) int {
 		n := fr.get(instr.Len).(*Term)
 		ln, ok := n.ConstInt64()
 		if !ok {
-			in.unsupp("make slice with symbolic length at %s", in.posOf(instr.Pos()))
+			found := false
+			for i := int64(0); i <= 64; i++ {
+				if in.E.Branch(Eq(n, Int64(i)), "makeslice-len@"+in.posOf(instr.Pos())) {
+					ln, found = i, true
+					break
+				}
+			}
+			if !found {
+				in.unsupp("make slice with symbolic length > 64 at %s", in.posOf(instr.Pos()))
+			}
 		}
 		cp := ln
 		if c, ok := fr.get(instr.Cap).(*Term); ok {
@@ -928,7 +941,24 @@ func (in *Interp) sliceOp(instr *ssa.Slice, x, lo, hi, max Value) Value {
 		t := v.(*Term)
 		c, ok := t.ConstInt64()
 		if !ok {
-			in.unsupp("symbolic slice bound at %s", in.posOf(instr.Pos()))
+			// case-split over the feasible concrete values (bounded by capacity)
+			limit := 0
+			switch xx := x.(type) {
+			case string:
+				limit = len(xx)
+			case Slice:
+				limit = cap(xx.V)
+			case *Value:
+				if xx != nil {
+					limit = len((*xx).(Array))
+				}
+			}
+			for i := 0; i <= limit; i++ {
+				if in.E.Branch(Eq(t, Int64(int64(i))), "slicebound@"+in.posOf(instr.Pos())) {
+					return i
+				}
+			}
+			in.goPanic(instr.Pos(), "slice bounds out of range (symbolic bound)", nil)
 		}
 		return int(c)
 	}
